@@ -14,7 +14,10 @@ SKIP_PREFIX = ('__',)
 
 
 def _norm_type(t):
-    return (t or '').replace('const ', '').replace(' const', '').strip()
+    """type text used for matching; the size expression of a variable-length array names a variable, so only its presence is kept"""
+    import re
+    t = (t or '').replace('const ', '').replace(' const', '').strip()
+    return re.sub(r'\[[^\]\d][^\]]*\]', '[*]', t)
 
 
 def signature(prog, f):
